@@ -306,18 +306,27 @@ PERTURB = 1e-12
 
 
 def _perturbed(values, seed):
+    """Relative perturbation of every float input at the 1e-12 level.  Equal values receive the *same* perturbation
+    (the factor is a function of the value), so coincidences between inputs -- a grid point equal to sigma, two equal
+    diameters -- survive: a `>` vs `>=` slip is a discontinuity, not ill-conditioning."""
     import random
-    rng = random.Random(seed * 7919 + 13)
+    import zlib
+
+    def pert(v):
+        if v == 0.0 or v != v or v in (float('inf'), float('-inf')):
+            return v
+        rng = random.Random(zlib.crc32(repr(float(v)).encode()) ^ (seed * 7919 + 13))
+        return v * (1.0 + PERTURB * rng.uniform(-1, 1))
     out = {}
     for k, v in values.items():
         if isinstance(v, bool) or isinstance(v, int):
             out[k] = v
         elif isinstance(v, float):
-            out[k] = v * (1.0 + PERTURB * rng.uniform(-1, 1))
+            out[k] = pert(v)
         elif isinstance(v, list):
             a = np.array(v)
             if a.dtype.kind == 'f':
-                a = a * (1.0 + PERTURB * np.array([rng.uniform(-1, 1) for _ in range(a.size)]).reshape(a.shape))
+                a = np.array([pert(float(x)) for x in a.ravel()]).reshape(a.shape)
             out[k] = a.tolist()
         else:
             out[k] = v
